@@ -225,6 +225,18 @@ def noncontig_boundary(n, fam='NCB'):
     three = [(0, 2), (h if h + 3 <= n else max(2, n // 2), 3), (n - 3, 3)]
     for perm in itertools.permutations(three):
         add(list(perm))
+    # fields wider than 64 bits whose pieces cross bit 64 of the *gathered value* (not only of the register)
+    if n >= 90:
+        add([(0, 40), (64 if n >= 104 else n - 40, 40)])                  # u80: second piece holds value bits 40..79
+        add([(8, 60), (n - 20, 20)])                                      # u80: first piece ends at value bit 59, second crosses 64
+        add([(n - 30, 30), (0, 50)])                                      # u80: second piece crosses value bit 64
+        add([(0, 63), (n - 2, 2)])                                        # u65
+        add([(0, 32), (40, 31), (n - 10, 10)])                            # u73: third piece starts at value bit 63
+        add([(n - 10, 10), (40, 31), (0, 32)])
+    if n == 128:
+        add([(64, 64), (0, 64)], kinds=['n', 'i'])
+        add([(1, 63), (64, 64), (0, 1)], kinds=['n', 'i'])                # pieces of a u128 value crossing bit 64 off the byte grid
+        add([(100, 28), (0, 100)], kinds=['n'])
     # wide pieces straddling the 64-bit line
     if n > 70:
         add([(60, 8), (0, 8)])
